@@ -63,25 +63,40 @@ pub fn check_component<C: BitRepr>(
         Err(p) => fail("counting sink", format!("panic {}", p.describe())),
     }
     if count <= MAX_MATERIALISED_BITS {
+        // the bits a sink *holds* are judged, not only the length it reports: the stored bytes of the byte
+        // sink must be ceil(count / 8) and must equal the export of the word sink
+        let mut held8: Option<Vec<u8>> = None;
         match panicx::catch(|| {
             let mut s = ByteSink::new();
-            c.write(&mut s).map(|()| s.len()).map_err(|e| format!("{e:?}"))
+            c.write(&mut s).map(|()| (s.len(), s.as_slice().to_vec())).map_err(|e| format!("{e:?}"))
         }) {
-            Ok(Ok(b)) => {
+            Ok(Ok((b, bytes))) => {
                 if b != count {
                     fail("MemSink<u8>", format!("{b} bits"));
+                } else if bytes.len() != (count + 7) / 8 {
+                    fail("MemSink<u8>", format!("{} stored bytes ({} bits reported by len())", bytes.len(), b));
                 }
+                held8 = Some(bytes);
             }
             Ok(Err(e)) => fail("MemSink<u8>", format!("error {e}")),
             Err(p) => fail("MemSink<u8>", format!("panic {}", p.describe())),
         }
         match panicx::catch(|| {
             let mut s = MemSink::<u64>::new();
-            c.write(&mut s).map(|()| s.len()).map_err(|e| format!("{e:?}"))
+            c.write(&mut s).map(|()| {
+                let mut out = vec![0xA5u8; (s.len() + 7) / 8];
+                s.write_to_byte_slice(&mut out);
+                (s.len(), out)
+            }).map_err(|e| format!("{e:?}"))
         }) {
-            Ok(Ok(b)) => {
+            Ok(Ok((b, bytes))) => {
                 if b != count {
                     fail("MemSink<u64>", format!("{b} bits"));
+                } else if let Some(h) = &held8 {
+                    if h.len() == bytes.len() && *h != bytes {
+                        let at = h.iter().zip(bytes.iter()).position(|(x, y)| x != y);
+                        fail("MemSink<u8> vs MemSink<u64>", format!("the same number of bits but different content (first difference at byte {at:?})"));
+                    }
                 }
             }
             Ok(Err(e)) => fail("MemSink<u64>", format!("error {e}")),
@@ -252,8 +267,10 @@ fn residual_grid(thorough: bool) -> Vec<ResCase> {
             if n % (1 << order) != 0 {
                 continue;
             }
-            for &warmup in &[0usize, 1, 4, 24] {
-                if warmup > (n >> order) {
+            // warm-ups longer than one partition are arguments the constructor has to refuse (or to count as
+            // it writes them)
+            for &warmup in &[0usize, 1, 4, 17, 24, 25] {
+                if warmup > n || (warmup > (n >> order) && n > 192) {
                     continue;
                 }
                 for pmode in 0..2u8 {
@@ -304,7 +321,7 @@ fn run_residual_grid(rep: &Arc<Report>, thorough: bool, only: Option<ResCase>) {
             }
         },
     );
-    rep.add_rule("Residual::new grid: block size{64,192,4096,32767} x partition order 0..=6 (dividing) x warm-up{0,1,4,24} x Rice parameter 0..=14 uniform/alternating x quotient patterns{all 0, all 1, one entry just below / just above the 2^32 SIMD-sum switch, true sum above 2^32, entries whose 32-bit sum wraps to zero, a quotient / a remainder in the warm-up positions (refused, or counted as written)}; giant residuals go to the counting sink only");
+    rep.add_rule("Residual::new grid: block size{64,192,4096,32767} x partition order 0..=6 (dividing) x warm-up{0,1,4,17,24,25} (also longer than a partition) x Rice parameter 0..=14 uniform/alternating x quotient patterns{all 0, all 1, one entry just below / just above the 2^32 SIMD-sum switch, true sum above 2^32, entries whose 32-bit sum wraps to zero, a quotient / a remainder in the warm-up positions (refused, or counted as written)}; giant residuals go to the counting sink only");
 }
 
 /// Components as the parser produces them from bytes nobody emitted: EVERY 3-byte input (2^24) followed by
@@ -571,5 +588,5 @@ pub fn run(args: &Args, rep: &Arc<Report>) {
         run_parsed_subframe_space(rep, thorough);
         run_headers_and_metadata(rep);
     }
-    rep.add_rule("every Stream, StreamInfo, Frame (before and after precompute_bitstream), FrameHeader, ChannelAssignment, SubFrame, Constant/Verbatim/FixedLpc/Lpc and Residual reachable through the public accessors of every encoded stream (ST; MT where in scope) and of the same stream returned by parser::stream: count_bits() == bits received by MemSink<u8> == MemSink<u64> == a counting sink; frames, headers and streams are whole bytes; non-trivial = a stream with at least one frame");
+    rep.add_rule("every Stream, StreamInfo, Frame (before and after precompute_bitstream), FrameHeader, ChannelAssignment, SubFrame, Constant/Verbatim/FixedLpc/Lpc and Residual reachable through the public accessors of every encoded stream (ST; MT where in scope) and of the same stream returned by parser::stream: count_bits() == bits received by MemSink<u8> (length reported, bytes stored, content equal to the word sink's export) == MemSink<u64> == a counting sink; frames, headers and streams are whole bytes; non-trivial = a stream with at least one frame");
 }
